@@ -211,7 +211,7 @@ class Path(object):
 PURE_SUFFIXES = (
     "::get", "::contains_key", "::contains", "::is_empty", "::len", "::is_some", "::is_none",
     "::as_ref", "::iter", "::as_str", "::ends_with", "::starts_with", "::get_by_cluster",
-    "::is_ok", "::is_err", "::as_deref", "::chars", "::rev", "::first", "::last", "::new",
+    "::is_ok", "::is_err", "::as_deref", "::chars", "::rev", "::first", "::last", "::new", "::join",
 )
 
 IDENTITY_CALLS = (
@@ -393,6 +393,10 @@ class Machine(object):
             return Const("int", c["int"])
         if c["ty"] == "()":
             return Const("unit", None)
+        if c["ty"].startswith("&[u8") and c["display"].startswith('b"'):
+            b = decode_bytes(c["display"][2:-1])
+            if b is not None:
+                return Ref(Cell(Const("bytes", b)))
         return Opaque(("constant", c["display"]), c["ty"])
 
     def eval_promoted(self, key):
@@ -878,6 +882,10 @@ class Machine(object):
             st.effects.append(("push", base_label(lab(tv)), args[1], loc(t)))
             self.bump(tgt)
             return finish(Const("unit", None))
+        if d.endswith("slice::<impl [T]>::len") or d.endswith("slice::<impl [T]>::is_empty") or d == "std::vec::Vec::<T, A>::is_empty":
+            tv = deref_val(args[0])
+            if isinstance(tv, VecVal):
+                return finish(Const("int", len(tv.elems)) if d.endswith("len") else Const("bool", len(tv.elems) == 0))
         if d == "std::vec::Vec::<T, A>::len":
             tv = deref_val(args[0])
             if isinstance(tv, VecVal):
@@ -899,6 +907,18 @@ class Machine(object):
                 st.ret = ("panic", "unwrap on None", loc(t))
                 return None
             return finish(Opaque(join_label(lab(a), "Some.0")))
+        if "core::fmt::rt::Argument" in d and "::new_" in d:
+            return finish(Opaque(("fmtarg", d.rsplit("::new_", 1)[1], lab(deref_val(args[0])))))
+        if d.startswith("std::fmt::Arguments") and d.endswith("::new"):
+            tb = deref_val(args[0])
+            av = deref_val(args[1])
+            tpl = decode_fmt_template(tb.v) if isinstance(tb, Const) and tb.kind == "bytes" else None
+            al = tuple(lab(c.val) for c in av.elems) if isinstance(av, VecVal) else (lab(av),)
+            return finish(Opaque(("fmt", tpl if tpl is not None else lab(tb), al)))
+        if d.startswith("std::fmt::Arguments") and (d.endswith("::from_str") or d.endswith("::new_const")):
+            return finish(Opaque(("fmt", lab(deref_val(args[0])), ())))
+        if d == "std::fmt::format":
+            return finish(args[0])
         if d.startswith("std::fmt::") or d.startswith("rules::aidl::core::fmt::") or d.startswith("core::fmt::") or name.startswith("std::fmt::") or "core::fmt::rt::Argument" in d:
             return finish(Opaque(("fmt",) + tuple(lab(a) for a in args)))
         if d == "std::iter::IntoIterator::into_iter" or d.endswith("::iter") or d.endswith("::iter_mut"):
@@ -952,6 +972,15 @@ class Machine(object):
             base = args[0]
             bv = deref_val(base)
             idx = args[1]
+            if isinstance(bv, VecVal) and isinstance(idx, AdtVal) and idx.ty.startswith("std::ops::Range"):
+                lo = idx.fields[0].val if 0 in idx.fields else None
+                hi = idx.fields[1].val if 1 in idx.fields else None
+                if isinstance(lo, Const) and isinstance(hi, Const) and idx.ty == "std::ops::Range":
+                    if not (0 <= lo.v <= hi.v <= len(bv.elems)):
+                        st.exit = "panic"
+                        st.ret = ("panic", "range %d..%d out of bounds (len %d)" % (lo.v, hi.v, len(bv.elems)), loc(t))
+                        return None
+                    return finish(Ref(Cell(VecVal(bv.elems[lo.v:hi.v])), False))
             if isinstance(bv, VecVal) and isinstance(idx, Const) and idx.kind == "int":
                 if idx.v >= len(bv.elems):
                     st.exit = "panic"
@@ -1156,6 +1185,54 @@ class Machine(object):
             elif isinstance(v, (VecVal, AdtVal)) and havoc is not None:
                 # a known value handed out by &mut to an unknown callee is no longer known
                 c.val = Opaque(("havoc", havoc, lab(v)))
+
+
+def decode_bytes(s):
+    """body of a Rust byte-string literal (as printed by rustc) -> bytes"""
+    out = bytearray()
+    i = 0
+    esc = {"n": 10, "r": 13, "t": 9, "\\": 92, "0": 0, '"': 34, "'": 39}
+    while i < len(s):
+        ch = s[i]
+        if ch == "\\":
+            n = s[i + 1]
+            if n == "x":
+                out.append(int(s[i + 2:i + 4], 16))
+                i += 4
+            elif n in esc:
+                out.append(esc[n])
+                i += 2
+            else:
+                return None
+        else:
+            if ord(ch) > 127:
+                return None
+            out.append(ord(ch))
+            i += 1
+    return bytes(out)
+
+
+def decode_fmt_template(b):
+    """rustc's compact format_args template: len-prefixed literal pieces (< 0x80), 0xC0 = next
+    argument with default formatting, 0x00 = end.  Anything else -> None (fail closed)."""
+    out = []
+    i = 0
+    while i < len(b):
+        x = b[i]
+        if x == 0:
+            return "".join(out) if i == len(b) - 1 else None
+        if x == 0xC0:
+            out.append("{}")
+            i += 1
+        elif x < 0x80:
+            try:
+                out.append(b[i + 1:i + 1 + x].decode("utf-8").replace("{", "{{").replace("}", "}}"))
+            except UnicodeDecodeError:
+                return None
+            i += 1 + x
+        else:
+            return None
+    return None
 
 
 def base_label(l):
